@@ -143,16 +143,19 @@ def strings_module(rng):
     consts = []
     def rnd(n):
         return "".join(r.choice(alpha) for _ in range(n))
-    for L in (34, 35, 40):
-        for dist in range(60, 141):
+    for L in (35,):
+        for dist in range(100, 141):
             if dist >= L:
                 x = rnd(L); consts.append(x + rnd(dist - L) + x)
+    for L in (34, 40):
+        for dist in (126, 127, 128, 129, 130):
+            x = rnd(L); consts.append(x + rnd(dist - L) + x)
     for L in (20, 36, 70, 300):
         for dist in (126, 127, 128, 129, 130, 254, 255, 256, 257):
             if dist >= L:
                 x = rnd(L); consts.append(x + rnd(dist - L) + x)
-    for k in range(9, 14):
-        for d in (-3, -2, -1, 0, 1, 2, 3):
+    for k in range(9, 13):
+        for d in (-1, 0, 1):
             for L in (35, 300):
                 x = rnd(L); consts.append(x + rnd((1 << k) + d - L) + x)
     r.shuffle(consts)
